@@ -235,8 +235,13 @@ class MibCompiler(object):
 
                         parsedMibs[mibInfo.name] = fileInfo, mibInfo, mibTree
 
-                        if mibname in failedMibs:
-                            del failedMibs[mibname]
+                        # a module obtained successfully is not a failure, even if
+                        # an earlier source (or an earlier file name) failed on it
+                        for name in (mibname, mibInfo.name):
+                            if name in failedMibs:
+                                del failedMibs[name]
+                            if name in processed:
+                                del processed[name]
 
                         mibsToParse.extend(mibInfo.imported)
 
